@@ -89,6 +89,19 @@ func init() {
 	knownRepros["F-LOOSETOKENS"] = knownRepro{"c09", c09Case{Kind: "cond", Expr: "a = 5", Items: c09Items, Names: c09Names, Values: c09Values}}
 }
 
+func init() {
+	knownRepros["F-KEYMUT"] = knownRepro{"history:C13", hist(bothClients,
+		model.Op{Kind: "CreateTable", Schema: sTable("tbl", false)},
+		model.Op{Kind: "Put", Table: "tbl", Item: pkItem("a", model.Item{"v": model.Str("x")})},
+		model.Op{Kind: "Update", Table: "tbl", Key: pkItem("a", nil), Update: "SET pk = :k", Values: map[string]model.AV{":k": model.Str("b")}},
+	)}
+	knownRepros["F-BGUNPROC"] = knownRepro{"history:C19", hist(worldCfg{V2: true},
+		model.Op{Kind: "CreateTable", Schema: sTable("tbl", false)},
+		model.Op{Kind: "Put", Table: "tbl", Item: pkItem("a", nil)},
+		model.Op{Kind: "BatchGet", Batch: []model.TableBatch{{Table: "tbl", Keys: []model.Item{pkItem("a", nil), pkItem("absent", nil)}}}},
+	)}
+}
+
 // TestGenKnown writes the repro files.
 func TestGenKnown(t *testing.T) {
 	if os.Getenv("VERIF_GEN_KNOWN") == "" {
